@@ -302,6 +302,77 @@ func (c *Ctx) strictFitGuards(fn *ssa.Function) (found []strictFit, examined int
 	return
 }
 
+// strictFitGuardsGeneral: the same defect in any spelling of the test (either operand order, rejecting or accepting arm,
+// the length held in a variable the buffer was made with): an edge whose comparison fact is exactly
+// len(X) - h - 1 >= 0 for a read X[..:h] it guards, with nothing in the guarded region needing more than h bytes.
+func (c *Ctx) strictFitGuardsGeneral(fn *ssa.Function) (found []strictFit) {
+	fb := c.FB(fn)
+	for _, b := range fn.Blocks {
+		ifi, ok := b.Instrs[len(b.Instrs)-1].(*ssa.If)
+		if !ok || b.Succs[0] == b.Succs[1] {
+			continue
+		}
+		cmp, ok := ifi.Cond.(*ssa.BinOp)
+		if !ok || !isCmp(cmp.Op) {
+			continue
+		}
+		for armIdx, arm := range b.Succs {
+			op := cmp.Op
+			if armIdx == 1 {
+				op = negate(op)
+			}
+			if op != token.LSS && op != token.GTR {
+				continue // only strict comparisons can be one byte too strict
+			}
+			facts := fb.cmpFacts(op, cmp.X, cmp.Y, nil)
+			if len(facts) != 1 {
+				continue
+			}
+			f := facts[0]
+			var exact, needsMore bool
+			var eStr string
+			for _, blk := range fn.Blocks {
+				if !edgeDominates(b, arm, blk) {
+					continue
+				}
+				for _, in := range blk.Instrs {
+					sl, ok := in.(*ssa.Slice)
+					if !ok || sl.High == nil {
+						continue
+					}
+					if _, isBytes := sl.X.Type().Underlying().(*types.Slice); !isBytes {
+						continue
+					}
+					need := fb.lenOfOperand(sl.X).add(fb.lin(sl.High), -1) // >= 0 suffices
+					if need.isConst() {
+						continue
+					}
+					if f.equal(need.add(linConst(1), -1)) {
+						exact = true
+						eStr = fb.linString(fb.lin(sl.High))
+					} else if mentionsSameLen(f, fb.lenOfOperand(sl.X)) && !fb.prove(need, append(fb.blockFacts(blk), f), 3) {
+						needsMore = true
+					}
+				}
+			}
+			if exact && !needsMore {
+				found = append(found, strictFit{fn, ifi, eStr, c.InstrPos(ifi)})
+			}
+		}
+	}
+	return
+}
+
+// mentionsSameLen: the fact talks about the same length symbol(s)
+func mentionsSameLen(f, l Lin) bool {
+	for k := range l.T {
+		if _, ok := f.T[k]; ok {
+			return true
+		}
+	}
+	return false
+}
+
 func init() {
 	reg := registry["C12"]
 	reg.Meta.Rules["C12.5"] = "the heap reader accepts an object whose header ends exactly at the end of the collection (no strict `<` where `<=` suffices)"
@@ -314,6 +385,15 @@ func init() {
 			}
 			n++
 			found, ex := c.strictFitGuards(fn)
+			have := map[string]bool{}
+			for _, f := range found {
+				have[f.Pos] = true
+			}
+			for _, f := range c.strictFitGuardsGeneral(fn) {
+				if !have[f.Pos] {
+					found = append(found, f)
+				}
+			}
 			for _, f := range found {
 				r.Viol("C12.5", name+"#strict-fit-test", f.Pos, "the test "+f.E+" < len(data) guards reads that end exactly at "+f.E+": a record that fills the buffer to the last byte is rejected (the writer produces such collections)")
 			}
@@ -653,4 +733,66 @@ func c12sizeBounds(c *Ctx, r *Result) {
 		r.Check(ok, "C12.7", "core.ReadGlobalHeapCollection~hdf5.globalHeapWriter.createNewHeap#size-bounds-agree", c.InstrPos(alloc), "the reader rejects collections larger than "+itoa64(K)+" bytes, but the writer sizes a collection after its largest object ("+fbW.linString(fbW.lin(arg))+") without that bound: elements above the bound cannot be read back")
 	}
 	r.Floor("C12.7", 1)
+}
+
+func init() {
+	reg := registry["C12"]
+	reg.Meta.Rules["C12.8"] = "every function that rounds a size to a multiple of 8 rounds UP TO THE NEXT multiple and leaves multiples unchanged (interpreted per residue class modulo 8): the heap accounting, the free-space record and the reader's stride all assume it"
+	reg.Rules = append(reg.Rules, func(c *Ctx, r *Result) {
+		n := 0
+		for _, fn := range c.LibFuncs() {
+			if fn.Blocks == nil || len(fn.Params) != 1 || fn.Signature.Results().Len() != 1 || !isIntType(fn.Params[0].Type()) || !isIntType(fn.Signature.Results().At(0).Type()) {
+				continue
+			}
+			var d [8]int64
+			all := true
+			for res := int64(0); res < 8; res++ {
+				v, ok := residueShift(fn, res)
+				if !ok {
+					all = false
+					break
+				}
+				d[res] = v
+			}
+			if !all {
+				continue
+			}
+			// an alignment function: the result is a multiple of 8 for every residue, and it is not the identity
+			aligns, identity := true, true
+			for res := int64(0); res < 8; res++ {
+				if mod8(res+d[res]) != 0 {
+					aligns = false
+				}
+				if d[res] != 0 {
+					identity = false
+				}
+			}
+			if !aligns || identity {
+				continue
+			}
+			n++
+			ok := true
+			why := ""
+			for res := int64(0); res < 8; res++ {
+				if d[res] != mod8(8-res) {
+					ok = false
+					why += "x%8==" + itoa(int(res)) + ": x" + signed(d[res]) + " (want x" + signed(mod8(8-res)) + "); "
+				}
+			}
+			if why == "" {
+				why = "x -> x + (8 - x%8)%8 for every residue"
+			}
+			r.Check(ok, "C12.8", c.Name(fn)+"#rounds-up-to-next-multiple-of-8", c.Pos(fn.Pos()), why)
+		}
+		if n == 0 {
+			r.Undec("C12.8", "module#rounds-up-to-next-multiple-of-8", "", "no function that aligns its argument to 8 was recognised by the residue interpretation")
+		}
+	})
+}
+
+func signed(v int64) string {
+	if v >= 0 {
+		return "+" + itoa(int(v))
+	}
+	return itoa(int(v))
 }
